@@ -2,6 +2,9 @@ module verifharness
 
 go 1.13
 
-require github.com/samaritan-proxy/samaritan v0.0.0
+require (
+	github.com/golang/snappy v0.0.1
+	github.com/samaritan-proxy/samaritan v0.0.0
+)
 
 replace github.com/samaritan-proxy/samaritan => /repo
